@@ -93,6 +93,7 @@ impl Tally {
 pub enum Prop {
     C05,
     C06,
+    C12,
     C14,
     C17,
 }
@@ -137,7 +138,7 @@ fn kind_json(k: &FoundDateTimeKind) -> Value {
         FoundDateTimeKind::Skipped { before_transition: b, after_transition: a } => json!({"skipped_at": [b.unix_time(), a.unix_time()], "before": type_json(b.local_time_type()), "after": type_json(a.local_time_type()), "before_text": format!("{b}"), "after_text": format!("{a}")}),
     }
 }
-fn found_json(f: &Found) -> Value {
+pub fn found_json(f: &Found) -> Value {
     match f {
         Found::Normal { u, ty } => json!({"normal": u, "type": mtype_json(ty)}),
         Found::Skipped { u, before, after } => json!({"skipped_at": u, "before": mtype_json(before), "after": mtype_json(after)}),
@@ -212,6 +213,9 @@ fn known_for(ctx: &Ctx, z: &MZone, ly: i64) -> Option<&'static str> {
 /// One search: compare the implementation with the model; reports according to ctx.prop.
 pub fn check_search(ctx: &Ctx, z: &MZone, zr: TimeZoneRef<'_>, f: &Fields, sweep: &str, tl: &mut Tally) {
     let cyc = ctx.cyc;
+    if ctx.rec.saturated() {
+        return;
+    }
     let l = f.local(cyc);
     let l_norm = l; // second 60 already folded by timegm
     let exp = z.search(cyc, l_norm);
@@ -239,7 +243,8 @@ pub fn check_search(ctx: &Ctx, z: &MZone, zr: TimeZoneRef<'_>, f: &Fields, sweep
     let case = || json!({"kind":"search","zone":zone_json(z),"fields":f.json()});
     let known = known_for(ctx, z, f.y as i64);
     let mut report = |what: Prop, expected: Value, got: Value, tl: &mut Tally| {
-        if what != ctx.prop {
+        // C12 (leap scales drive lookups and searches) is judged through both the valid-result and the gap comparison
+        if what != ctx.prop && !(ctx.prop == Prop::C12 && matches!(what, Prop::C05 | Prop::C06)) {
             return;
         }
         if deleted_candidate && what != Prop::C17 {
@@ -507,7 +512,7 @@ fn check_error_agreement(ctx: &Ctx, z: &MZone, zr: TimeZoneRef<'_>, f: &Fields, 
 
 // ================================================================================================ sweeps
 
-fn tiny_types(offs: [i32; 3]) -> Vec<MType> {
+pub fn tiny_types(offs: [i32; 3]) -> Vec<MType> {
     vec![MType::new(offs[0], false, Some("AAA")), MType::new(offs[1], true, Some("BBB")), MType::new(offs[2], false, Some("CCC"))]
 }
 
@@ -1003,6 +1008,7 @@ pub fn replay(case: &Value, args: &Args) -> i32 {
         "C05" => Prop::C05,
         "C06" => Prop::C06,
         "C14" => Prop::C14,
+        "C12" => Prop::C12,
         _ => Prop::C17,
     };
     let rec = Recorder::new(args, "model_checking");
